@@ -5,6 +5,7 @@ import (
 	"verif/checks/c02"
 	"verif/checks/c03"
 	"verif/checks/c04"
+	"verif/checks/c05"
 	"verif/checks/c06"
 	"verif/checks/c07"
 	"verif/checks/c08"
@@ -21,6 +22,7 @@ import (
 )
 
 func init() {
+	register("C05", "exploration", c05.Run)
 	register("C19", "model_checking", c19.Run)
 	register("C20", "exploration", c20.Run)
 	register("C18", "exploration", c18.Run)
